@@ -341,7 +341,17 @@ type solveResult struct {
 	dur    time.Duration
 }
 
+// procSem bounds the number of solver processes running at once (the portfolio would otherwise
+// oversubscribe the machine and turn 5 s proofs into timeouts).
+var procSem = make(chan struct{}, 14)
+
 func runSolver(ctx context.Context, sp solverSpec, text string, dir, base string, timeoutS, seed int) solveResult {
+	select {
+	case procSem <- struct{}{}:
+		defer func() { <-procSem }()
+	case <-ctx.Done():
+		return solveResult{sp.name, "timeout", "cancelled", 0}
+	}
 	file := filepath.Join(dir, base+"."+sp.name+".smt2")
 	if err := os.WriteFile(file, []byte(sp.pre+text), 0644); err != nil {
 		return solveResult{sp.name, "error", err.Error(), 0}
@@ -484,6 +494,35 @@ func firstLines(s string, n int) string {
 }
 
 func dischargeAll(obs []*Obligation, prelude, dir string, timeoutS, seed, workers int, both bool) {
+	dischargeAll1(obs, prelude, dir, timeoutS, seed, workers, both)
+	// second chance, one at a time and with a doubled budget, for what only timed out under load
+	// (at most 5 obligations: a tree that really breaks a property fails many, and is not retried)
+	var cand []*Obligation
+	for _, o := range obs {
+		if o.Status == "undischarged" && strings.Contains(o.Detail, "timeout") && !strings.Contains(o.Detail, "DISAGREEMENT") {
+			cand = append(cand, o)
+		}
+	}
+	if len(cand) > 5 {
+		return
+	}
+	for _, o := range cand {
+		{
+			first := o.Detail
+			// a proof found with another seed or a larger budget is still a proof
+			for attempt := 1; attempt <= 3 && o.Status == "undischarged"; attempt++ {
+				discharge(o, prelude, dir, (1+attempt)*timeoutS, seed+attempt*7919, both)
+			}
+			if o.Status == "undischarged" {
+				o.Detail = o.Detail + " (first attempt: " + first + ")"
+			} else {
+				o.Detail = "discharged on a sequential retry"
+			}
+		}
+	}
+}
+
+func dischargeAll1(obs []*Obligation, prelude, dir string, timeoutS, seed, workers int, both bool) {
 	var wg sync.WaitGroup
 	ch := make(chan *Obligation)
 	for i := 0; i < workers; i++ {
